@@ -323,7 +323,7 @@ def affine_extents(rng, es, qmax=7, smax=3):
     return ext
 
 
-def affine_mapping(rng, es, part_p=0.5):
+def affine_mapping(rng, es, part_p=0.5, derive_s_p=0.25):
     """loop order over {Q or W, S} (and {P or H, R}); optional shape partitioning of Q with W following."""
     out = es["out"]
     m = {"rank-order": {}, "loop-order": {}}
@@ -356,6 +356,11 @@ def affine_mapping(rng, es, part_p=0.5):
     for i, (ql, wl) in enumerate(zip(qlv, wlv)):
         loop.append(ql if i < nq else wl)
     others = ["S"]
+    if rng.random() < derive_s_p:
+        # iterate both the output's and the input's innermost level and derive S from them (q = (w - b*s)/a solved for s)
+        inner = loop[-1]
+        others = [wlv[-1] if inner == qlv[-1] else qlv[-1]]
+        kind += "+derivedS"
     if "P" in es["ranks"]:
         others += [rng.choice(["P", "H"]), "R"]
     # interleave: keep Q levels in order, insert others anywhere
